@@ -56,7 +56,17 @@ def run(ctx):
     bad["f"][3] = bad["f"][1]                      # a second minimum as low as the global one (f[1] = -1)
     bad2 = copy.deepcopy(recs[0])
     bad2["pts"][12][1] = bad2["pts"][13][1]        # a wrong value inside a ball
+    selftest = None
+    if not qk:
+        # Knuth's published self-test of the generator on the exact model (about 6 minutes of TLC, in parallel with the batches)
+        import concurrent.futures
+        pool = concurrent.futures.ThreadPoolExecutor(1)
+        selftest = pool.submit(lambda: run_tlc("KnuthSelfTest", "", workers=1, timeout=3000, xmx="4g"))
     verdicts = check(ctx, recs + [bad, bad2])
+    if selftest is not None:
+        r = selftest.result()
+        if not r.ok or '"KNUTH"' not in r.out or "TRUE>>" not in r.out:
+            raise TLCError("KnuthSelfTest failed:\n" + r.out[-1500:])
     base_clean = not verdicts[0]["failed"]          # the demonstration needs an accepted record to corrupt
     if base_clean and ("OtherMinimaNotHigher" not in verdicts[-2]["failed"] or not ({"CubicInside", "ParaboloidOutside", "ValueAtMinimiser"} & set(verdicts[-1]["failed"]))):
         raise TLCError("binding demonstration failed: corrupted GKLS records were accepted: %s / %s" % (verdicts[-2]["failed"], verdicts[-1]["failed"]))
@@ -79,6 +89,7 @@ def run(ctx):
         "samples": [{"dim": recs[0]["dim"], "nf": recs[0]["nf"], "first_points": recs[0]["pts"][10:13]}],
         "functions": len(recs), "points_recomputed": npts, "points_by_branch": kinds, "boundary_pairs": npairs,
         "reference_values_compared": 50 * len(recs), "functions_checked_against_the_exact_random_stream": len(streamed), "corrupted_records_rejected": 2, "exhaustive": not qk,
+        "knuth_published_self_test_reproduced_by_the_exact_model": None if qk else True,
     }
     return finish(ctx, "other", cov, [
         "parameters are read from the public attributes GKLS.function.GKLS_minima of the generated object",
